@@ -42,7 +42,7 @@ class C05(Prop):
     tag = 'which requested traits expand to compile_error! (and the messages), which to impls'
     rule = ('EXHAUSTIVE in both tiers: all 7*7*4*4*4 = 3136 per-field attribute combinations x the five traits (derived '
             'together, so that every attribute is read) x {named struct field, tuple struct field, enum-variant field} x '
-            '{attribute macro, derive macro} = 18816 expansions deciding 94080 (combination, trait) points; plus sampled trait '
+            '{attribute macro, derive macro} = 18816 expansions deciding 94080 (combination, trait) points; every combination again after a plain field of the same type and in a second variant (isolation); plus sampled trait '
             'subsets, the 4x5 misplaced arguments on types and on variants, the compile_fail corpus of the repository '
             '(messages compared with the committed .stderr), and a rustc-compiled sample; non-trivial = combination with at '
             'least one attribute; distinct by input text')
@@ -58,12 +58,16 @@ class C05(Prop):
             for shape, mode in itertools.product(('named', 'tuple', 'variant'), ('attr', 'derive')):
                 traits = G.TRAITS
                 out.append(self.mk(combo, shape, mode, traits, ci))
+            # the verdict on a field does not depend on its neighbours: the same field after a plain field of the same
+            # type, and in the second variant after a variant with the same payload
+            for shape in ('after-same-type', 'second-variant'):
+                out.append(self.mk(combo, shape, 'attr' if ci % 2 else 'derive', G.TRAITS, ci))
         # trait subsets: attributes that affect no derived trait must not matter
         sets = [list(c) for n in range(1, 5) for c in itertools.combinations(G.TRAITS, n)]
         for k in range(1500 if tier == 'quick' else 20000):
             combo = combos[rng.randrange(len(combos))]
             traits = sets[rng.randrange(len(sets))]
-            out.append(self.mk(G.relevant_combo(traits, combo), rng.choice(['named', 'tuple', 'variant']),
+            out.append(self.mk(G.relevant_combo(traits, combo), rng.choice(['named', 'tuple', 'variant', 'after-same-type', 'second-variant']),
                                rng.choice(['attr', 'derive']), traits, -1))
         # misplaced arguments
         for a, arg, where, mode in itertools.product(G.ATTRS, ['ignore', 'reverse', 'key', 'by'], ['type', 'variant'],
@@ -89,8 +93,12 @@ class C05(Prop):
     def mk(combo, shape, mode, traits, ci):
         named = shape != 'tuple'
         variants = [(named, [('u8', combo)])]
-        is_enum = shape == 'variant'
-        if is_enum:
+        is_enum = shape in ('variant', 'second-variant')
+        if shape == 'after-same-type':
+            variants = [(ci % 3 != 0, [('u8', {}), ('u8', combo), ('u8', {})][:2 + ci % 2])]
+        elif shape == 'second-variant':
+            variants = [(False, [('u8', {})]), (ci % 3 != 0, [('u8', combo)])]
+        elif is_enum:
             variants.append((False, []))
         req = G.make_item('E' if is_enum else 'X', variants, is_enum, traits, mode)
         feats = [shape, mode] + ['%s(%s)' % (a, o) for a, o in sorted(combo.items()) if o != '-']
